@@ -694,6 +694,11 @@ func (s Emitter) WriteExpression(output io.Writer, expression cypher.Expression)
 		}
 
 	case graph.Kinds:
+		if len(typedExpression) == 0 {
+			// `set n:` / `remove n:` is not Cypher
+			return fmt.Errorf("kind list is empty")
+		}
+
 		if _, err := io.WriteString(output, ":"); err != nil {
 			return err
 		}
@@ -703,6 +708,11 @@ func (s Emitter) WriteExpression(output io.Writer, expression cypher.Expression)
 		}
 
 	case *cypher.KindMatcher:
+		if len(typedExpression.Kinds) == 0 {
+			// There is no Cypher spelling for a kind test over no kinds; emitting nothing would corrupt the query text
+			return fmt.Errorf("kind matcher has no kinds to match")
+		}
+
 		if typedExpression.IsExclusive && len(typedExpression.Kinds) > 1 {
 			// All-of kind test (what the parser builds for n:A:B): emit the label conjunction form. The any-of spelling
 			// below would hand Neo4j a weaker predicate than the one the PostgreSQL translator evaluates for this node.
